@@ -22,7 +22,7 @@ EXPLANATION = (
     "C13.7 Child::wait/try_wait wait on the child's own pid, WNOHANG only in try_wait, and return the cached status afterwards. "
     "C13.2 also: every kernel call on the child's side is a configured step, the status report or exit (nothing else touches what the new program inherits). "
     "C13.2 also: the result of every configured child step is propagated (a failing dup2/chdir/setuid/setgid/setpgid is reported, never skipped). "
-    "C13.7 also: Child::wait closes the handle's stdin before it waits (a child reading to EOF would otherwise never finish). NOT decided: what the exec'd program observes (kernel), process-tree observation, uid/gid semantics.")
+    "C13.7 also: Child::wait closes the handle's stdin before it waits (a child reading to EOF would otherwise never finish). C13.2 also: every wrapper the forked child uses asks the kernel once (no retry loop; dup's EBUSY retry is C09.5's documented exception). NOT decided: what the exec'd program observes (kernel), process-tree observation, uid/gid semantics.")
 ASSUMPTIONS = ["fork returns 0 exactly in the child", "a diverging call (-> !) never returns"]
 
 DO_SPAWN = "tiny_std::process::do_spawn"
